@@ -610,7 +610,7 @@ var linkKinds = []string{"def", "def", "lambda", "comp", "dictcomp", "sorted", "
 var failKinds = []string{"call", "binop", "unop", "index", "attr", "unpack", "local", "global", "fail",
 	"setindex", "divzero", "iterate", "slice", "cmp", "in", "callkw", "setfield", "augassign", "argbind",
 	"dictkey", "compiterate", "percent", "notin", "default", "methodcall", "pluschain", "recursive", "pluschain", "argbind",
-	"augindex", "augfield", "plainstore", "seqstore", "notin", "augindex"}
+	"augindex", "augfield", "plainstore", "seqstore", "notin", "augindex", "freevar", "cellvar", "freevar"}
 
 func fname(i int) string { return fmt.Sprintf("f%d", i) }
 
@@ -846,6 +846,76 @@ func (g *gen) genFailing(name, kind string) []Frame {
 		w.s("z" + closer)
 		w.s("    z = 1\n")
 		out = fr(l, c)
+	case "cellvar":
+		// a variable of THIS function that a nested function captures (a cell), read before it is assigned
+		w.s(ind + "def inner_c():\n" + ind + "    return zc\n")
+		closer := g.openCtx(ind, tail)
+		l, c := w.mark()
+		w.s("zc" + closer)
+		w.s("    zc = 1\n")
+		out = fr(l, c)
+	case "freevar":
+		// a nested def / lambda reads a variable of the ENCLOSING function before that
+		// function has assigned it; the nested function is called directly, from a
+		// comprehension, or by a built-in; the reference is the first instruction of
+		// the nested function or follows other positioned operations on other lines
+		iname := "inner_f"
+		var rl, rc int32
+		if r.Intn(3) == 0 {
+			iname = "lambda"
+			w.s(ind + "inner_f = ")
+			g.openParenAndMove()
+			w.s("lambda a: ")
+			if r.Bool() {
+				w.s("(a +")
+				w.nl(r.Intn(3))
+				w.sp(r.Intn(40))
+				w.s("1) * ")
+			}
+			w.s("(")
+			w.nl(r.Intn(3))
+			w.sp(g.colPad())
+			rl, rc = w.mark()
+			w.s("zf))\n")
+		} else {
+			w.s(ind + "def inner_f(a):\n")
+			if r.Bool() {
+				w.s(ind + "    q = (a +")
+				w.sp(g.colPad())
+				w.s("1)\n")
+				w.nl(r.Intn(20))
+			}
+			save := g.ctx
+			closer := g.openCtx(ind+"    ", "\n")
+			rl, rc = w.mark()
+			w.s("zf" + closer)
+			g.ctx = save
+			w.s(ind + "    return a\n")
+		}
+		w.s(ind + "_r = ")
+		g.openParenAndMove()
+		var mid []Frame
+		var l, c int32
+		switch r.Intn(4) {
+		case 0:
+			w.s("[inner_f")
+			l, c = w.mark()
+			w.s("(q) for q in [x]])\n")
+		case 1:
+			bn := hx.Pick(r, []string{"sorted", "min", "max"})
+			w.s(bn)
+			l, c = w.mark()
+			w.s("([x, x], key = inner_f))\n")
+			mid = []Frame{{Name: bn, File: "<builtin>"}}
+		default:
+			w.s("inner_f")
+			w.sp(r.Intn(3))
+			l, c = w.mark()
+			w.s("(x))\n")
+		}
+		w.s("    zf = 1\n")
+		out = append(fr(l, c), mid...)
+		out = append(out, Frame{Name: iname, Line: rl, Col: rc})
 	case "global":
 		closer := g.openCtx(ind, tail)
 		l, c := w.mark()
